@@ -8,6 +8,7 @@ import Model.C13.Slip39
 import Model.C13.Generate
 import Model.C13.Dispatch
 import Model.C13.Entry
+import Model.C13.ElectrumOld
 import Generated.Slip39
 import Generated.Mnemonic
 open Btc Btc.C13
@@ -168,6 +169,19 @@ def handle (toks : List String) : String :=
       let t := mnemonicType o (seedVersion hmacSha512 s) n
       if t.isEmpty then "err value" else "ok " ++ t
     | _, _, _ => "bad-op"
+  | ["electrum.old.enc", groups] =>
+    match natList? groups with
+    | some gs => "ok " ++ showNats (oldMnemonicIndexes Gen.Mnemonic.OLD_BASE gs)
+    | none => "bad-op"
+  | ["electrum.old.dec", idx] =>
+    match natList? idx with
+    | some idx =>
+      if idx.all (· < Gen.Mnemonic.OLD_BASE) then
+        match oldHexSeedGroups Gen.Mnemonic.OLD_BASE idx with
+        | some gs => "ok " ++ String.join (gs.map hex08)
+        | none => "err value"
+      else "bad-op"
+    | none => "bad-op"
   | ["electrum.idx", v, base, _lang] =>
     match v.toNat?, base.toNat? with
     | some v, some base => if base < 2 then "bad-op" else "ok " ++ showNats (electrumIndexes v base)
@@ -219,6 +233,20 @@ def handle (toks : List String) : String :=
   | ["bip85.path", lang, words, index, _xprv] =>
     match words.toNat?, index.toNat? with
     | some w, some i => match bip85Bip39Path lang w i with
+      | some p => "ok " ++ showNats p
+      | none => "err value"
+    | _, _ => "bad-op"
+  | ["bip85.hex", key, n, _xprv, _index] =>
+    match fromHex? key, n.toNat? with
+    | some key, some n =>
+      match bip85Hex hmacSha512 key n with
+      | some b => "ok " ++ toHex b
+      | none => "err value"
+    | _, _ => "bad-op"
+  | ["bip85.sized", fn, size, index] =>
+    match size.toNat?, index.toNat? with
+    | some size, some index =>
+      match bip85SizedPath fn size index with
       | some p => "ok " ++ showNats p
       | none => "err value"
     | _, _ => "bad-op"
